@@ -1,7 +1,7 @@
 (* Command interpreter shared by the extracted binary and by in-Coq evaluation:
    one s-expression command per line in, one s-expression answer out. *)
 From Coq Require Import String Ascii List ZArith NArith Bool.
-From OL Require Import Sexp PyAst Unparse.
+From OL Require Import Sexp PyAst Unparse Config.
 Import ListNotations.
 Open Scope string_scope.
 
@@ -19,6 +19,11 @@ Definition run_cmd (x : sexp) : sexp :=
       match expr_of e with Some e' => ok (sx_expr e') | None => bad "decode-expr" end
   | L [A "echo-block"; b] =>
       match block_of b with Some _ => ok (A "block") | None => bad "decode-block" end
+  | L [A "cfg-hist"; L acts] =>
+      match mapM action_of acts with
+      | Some h => ok (L [L (map sx_output (run [] h)); L (map sx_output (run_shared (0, []) h))])
+      | None => bad "decode-history"
+      end
   | _ => bad "unknown-command"
   end.
 
